@@ -94,3 +94,5 @@ require (
 )
 
 replace github.com/pancsta/asyncmachine-go => /repo
+
+replace github.com/cenkalti/rpc2 => /verif/third_party/rpc2
